@@ -373,6 +373,9 @@ func runC17(c *mon.Ctx) {
 		}
 		if i%16 == 3 {
 			ops = wrapPMTScenario(r)
+			if (i/16)%2 == 1 {
+				ops = wrapDescriptorScenario(r)
+			}
 			c.Count("histories_with_a_pmt_of_65536_bytes")
 		}
 		hr := runHistory(ops, period)
